@@ -128,6 +128,10 @@ func c01Check(ctx *Ctx, idx int, cs coreCase) {
 	// caching planner, small downstream batches, permuted service list
 	for _, alt := range c01Configs(cf, cs, idx) {
 		gw2, err := cf.F.NewGateway(alt.cfg)
+		if err != nil && alt.name == "service-listed-twice" {
+			ctx.Rep.Count("config:service-listed-twice refused at start")
+			continue
+		}
 		if err != nil {
 			ctx.Rep.Fail(hx.Failure{Kind: "property-fails", Detail: "configuration " + alt.name + ": the gateway no longer starts: " + err.Error(), Case: full, Index: idx})
 			return
@@ -254,6 +258,13 @@ func c01Configs(cf *coreFed, cs coreCase, idx int) []c01Alt {
 			ord[i] = (i + 1 + idx%(n-1)) % n
 		}
 		alts = append(alts, c01Alt{"rotated-service-list", fed.GatewayConfig{URLOrder: ord}, 1})
+		// one service listed twice, in front: the tree refuses to start (its root fields collide with
+		// themselves); a gateway that does start has to route every field as before
+		dup := []int{idx % n}
+		for i := 0; i < n; i++ {
+			dup = append(dup, i)
+		}
+		alts = append(alts, c01Alt{"service-listed-twice", fed.GatewayConfig{URLOrder: dup}, 1})
 	}
 	return alts
 }
